@@ -171,3 +171,14 @@ def _kf_fold(pid, f, impl):
         return False
     norm = lambda v: re.sub(rb"[ \t]+", b" ", v)
     return all(x[0] == y[0] and norm(x[1]) == norm(y[1]) for x, y in zip(a, b))
+
+
+@classifier("gzip-first-member-only")
+def _kf_multi(pid, f, impl):
+    """a gzip body of several members is answered with exactly the first member's content (what follows it is ignored)"""
+    g = f.group
+    if g.kind != "gzip-multi-member" or f.oracle != "multi-member":
+        return False
+    a = g.meta["a"]
+    out = strip_ann(impl[g.tag(f.members[0])]).split(" | h=")[0].strip()
+    return out == ("OK " + a if a else "OK")
